@@ -172,3 +172,101 @@ package commands
 //@   assumed
 //@   props C04
 //@   modifies all
+
+// C05: prune.  Nothing is removed under --dry-run; an object that is in the
+// retained set is never put on the list of prunable objects; with remote
+// verification an object stays on the list only if the remote has it or it is
+// unreachable (and unreachable objects are not to be verified); a failed
+// collector stops prune before anything is deleted.
+//@ func prune
+//@   props C05
+//@   at call commands.pruneDeleteFiles:1 assert !dryRun
+//@   loop 1 iter has(retainedObjects, file.Oid) ==> len(prunableObjects) == iter(len(prunableObjects))
+//@   loop 1 iter len(prunableObjects) == iter(len(prunableObjects)) || (len(prunableObjects) == iter(len(prunableObjects)) + 1 && prunableObjects[iter(len(prunableObjects))] == file.Oid)
+
+//@ func pruneGetVerifiedPrunableObjects
+//@   props C05
+//@   loop 1 iter len(verifiedPrunableObjects) == iter(len(verifiedPrunableObjects)) || (len(verifiedPrunableObjects) == iter(len(verifiedPrunableObjects)) + 1 && verifiedPrunableObjects[iter(len(verifiedPrunableObjects))] == oid && (has(verifiedObjects, oid) || (!verifyUnreachable && !has(reachableObjects, oid))))
+
+//@ func pruneCheckErrors
+//@   props C05
+//@   ensures len(taskErrors) == 0
+
+// only object paths of listed objects are removed
+//@ func pruneDeleteFiles
+//@   props C05 C09
+//@   at call os.Remove:1 assert arg0__ == objpath(oid)
+
+// Retention windows: refs changed since now-(recent refs days + offset); for
+// each retained commit, versions since that commit's date-(recent commits
+// days + offset).
+//@ func pruneTaskGetRetainedCurrentAndRecentRefs
+//@   props C05
+//@   at call git.RecentBranches:1 assert arg0__ == time_adddate(time_now(), 0, 0, -(fetchconf.FetchRecentRefsDays + fetchconf.PruneOffsetDays))
+//@   at go commands.pruneTaskGetPreviousVersionsOfRef:1 assert arg2__ == time_adddate(summ.CommitDate, 0, 0, -(fetchconf.FetchRecentCommitsDays + fetchconf.PruneOffsetDays)) && arg1__ == commit
+
+// Every pointer reported by a retention scan is either retained or turned
+// into an error that stops prune: no branch drops both.
+//@ func pruneTaskGetRetainedUnpushed$1
+//@   props C05
+//@   requires @inv p != nil || err != nil
+//@   ensures old(err) == nil ==> chsent(retainChan) == old(chsent(retainChan)) + 1
+//@   ensures old(err) != nil ==> chsent(errorChan) == old(chsent(errorChan)) + 1
+//@ func pruneTaskGetRetainedAtRef$1
+//@   props C05
+//@   requires @inv p != nil || err != nil
+//@   ensures old(err) == nil ==> chsent(retainChan) == old(chsent(retainChan)) + 1
+//@   ensures old(err) != nil ==> chsent(errorChan) == old(chsent(errorChan)) + 1
+
+//@ func github.com/git-lfs/git-lfs/v3/git.RecentBranches
+//@   assumed
+//@   props C05
+//@   modifies fresh
+//@ func github.com/git-lfs/git-lfs/v3/git.GetCommitSummary
+//@   assumed
+//@   props C05
+//@   modifies fresh
+//@   ensures result1 == nil ==> result0 != nil
+//@ func github.com/git-lfs/git-lfs/v3/git.CurrentRef
+//@   assumed
+//@   props C05
+//@   modifies fresh
+//@   ensures result1 == nil ==> result0 != nil
+
+// Queueing an object for the remote check touches only the queue's own state.
+//@ func (*github.com/git-lfs/git-lfs/v3/tq.TransferQueue).Add
+//@   assumed
+//@   props C05
+//@   modifies fresh, map q.transfers, fields q.wait
+
+// progress output and queue construction used by prune (assumed frames)
+//@ func logVerboseOutput
+//@   assumed
+//@   noeffect
+//@ func newDownloadCheckQueue
+//@   assumed
+//@   modifies fresh
+//@   ensures result != nil && isfresh(result)
+//@ func getTransferManifestOperationRemote
+//@   assumed
+//@   modifies fresh
+//@ func downloadTransfer
+//@   assumed
+//@   modifies fresh
+//@ func github.com/git-lfs/git-lfs/v3/tasklog.NewLogger
+//@   assumed
+//@   modifies fresh
+//@   ensures result != nil
+//@ func (*github.com/git-lfs/git-lfs/v3/tasklog.Logger).Close
+//@   assumed
+//@   noeffect
+//@ func (*github.com/git-lfs/git-lfs/v3/tasklog.Logger).Percentage
+//@   assumed
+//@   modifies fresh
+//@   ensures result != nil
+//@ func (*github.com/git-lfs/git-lfs/v3/tasklog.PercentageTask).Count
+//@   assumed
+//@   noeffect
+//@ func (*github.com/git-lfs/git-lfs/v3/tasklog.PercentageTask).Complete
+//@   assumed
+//@   noeffect
